@@ -994,6 +994,13 @@ func parseHeader(s string, sf *SpecFile) (*Contract, error) {
 		name = name[k+1:]
 		if p, ok := sf.Imports[alias]; ok {
 			pkg = p
+		} else if d := strings.Index(alias, "."); d >= 0 {
+			// interface contracts: alias.Type.Method
+			if p, ok := sf.Imports[alias[:d]]; ok {
+				pkg = p + alias[d:]
+			} else {
+				pkg = alias
+			}
 		} else {
 			pkg = alias
 		}
